@@ -148,7 +148,7 @@ Call ==
          cells == ToCells(Ev.new)
          nc == NestedOf(Ev)
          valid == tok # "?" /\ CallValid(D, tok, c, unit) /\
-                  (c.op \in {"tins", "tpush", "temb", "ains", "apushb", "apushf", "arange", "mset", "mupd", "minit", "xins", "xpushb", "xpushf"} => Len(cells) > 0)
+                  (c.op \in {"tins", "tpush", "temb", "ains", "apushb", "apushf", "arange", "amix", "mset", "mupd", "minit", "xins", "xpushb", "xpushf"} => Len(cells) > 0)
          D2 == IF valid THEN ApplyCall(D, tok, c, cells, nc, unit) ELSE D
          W2 == ExtendW(Ev)
          reach == ReachFrom(D2, Roots, 12)
